@@ -282,7 +282,10 @@ def main():
     t0 = time.time()
     tier = checklib.env_tier()
     seed = checklib.env_seed()
-    shapes = SHAPES_BASIC if tier == 'quick' else SHAPES_BASIC + ['T[S1,B]', 'T[T0]', 'T[E,F]']
+    shapes = SHAPES_BASIC if tier == 'quick' else SHAPES_BASIC + ['T[S1,B]', 'T[T0]', 'T[E,F]', 'S3', 'T[I,F,S1,B]']
+    # larger operands for the operators that look inside them (concatenation, lexicographic order, structural equality)
+    large_pairs = [('S4', 'S4'), ('S5', 'S3'), ('S3', 'S5'), ('T[I,F,S1,B]', 'T[I,F,S1,B]'), ('T[I,I,I,I,I]', 'T[I,I,I,I,I]'), ('T[T[I,S2],T[F,B]]', 'T[T[I,S2],T[F,B]]'),
+                   ('T[I,I,I,I]', 'T[I,I,I]')]
     timeout_ms = 60000 if tier == 'quick' else 600000
     cvc5_rate = 0.02 if tier == 'quick' else 0.25
     units = []
@@ -295,6 +298,9 @@ def main():
         for op in UNOPS:
             for sa in shapes:
                 units.append((op, sa, None, ofc, seed, cvc5_rate, timeout_ms))
+        for op in ('Add', 'Eq', 'Neq', 'Gt', 'Lt', 'Geq', 'Leq'):
+            for sa, sb in large_pairs:
+                units.append((op, sa, sb, ofc, seed, cvc5_rate, timeout_ms))
     random.Random(seed).shuffle(units)
     import kani_run
     kh = kani_run.start(jobs=5, tag='C03', harnesses=['checked_add_matches_i128', 'checked_sub_matches_i128', 'checked_mul_matches_i128', 'checked_neg_matches_spec',
